@@ -24,6 +24,9 @@ VBool(b)   == [v |-> "bool", b |-> b]
 VBytes(bs) == [v |-> "bytes", bs |-> bs]
 \* strings are kept to ASCII here: the sequence of code points is the sequence of UTF-8 bytes
 VStr(cs)   == [v |-> "str", cs |-> cs]
+\* a point of the BLS12-381 group G1 / G2, given as the multiple k of the group's generator. The groups have prime order r ~ 2^255, so
+\* for the small k the programs reach, "the same multiple" is "the same point" and the group law is integer arithmetic on k.
+VPoint(g, k) == [v |-> "point", g |-> g, k |-> k]
 IsAscii(bs) == \A i \in 1..Len(bs) : bs[i] < 128
 VVoid      == [v |-> "void"]
 VList(xs)  == [v |-> "list", xs |-> xs]
@@ -265,6 +268,10 @@ BuiltinCall(f, vs) ==
       [] f = "append_string"              -> Ok(VStr(vs[1].cs \o vs[2].cs))
       [] f = "encode_utf8"                -> Ok(VBytes(vs[1].cs))
       [] f = "decode_utf8"                -> IF IsAscii(vs[1].bs) THEN Ok(VStr(vs[1].bs)) ELSE Unknown
+      [] f \in {"bls12_381_g1_neg", "bls12_381_g2_neg"}               -> Ok(VPoint(vs[1].g, 0 - vs[1].k))
+      [] f \in {"bls12_381_g1_add", "bls12_381_g2_add"}               -> Ok(VPoint(vs[1].g, vs[1].k + vs[2].k))
+      [] f \in {"bls12_381_g1_equal", "bls12_381_g2_equal"}           -> Ok(VBool(vs[1].k = vs[2].k))
+      [] f \in {"bls12_381_g1_scalar_mul", "bls12_381_g2_scalar_mul"} -> Ok(VPoint(vs[2].g, vs[1].n * vs[2].k))
       [] OTHER -> Unknown
 
 RECURSIVE Eval(_, _, _, _), EvalSeq(_, _, _, _), EvalWhen(_, _, _, _, _), Apply(_, _, _, _)
@@ -290,6 +297,7 @@ Eval(m, env, e, fuel) ==
       [] e.k = "bool"  -> Ok(VBool(e.b))
       [] e.k = "bytes" -> Ok(VBytes(e.bs))
       [] e.k = "str"   -> Ok(VStr(e.cs))
+      [] e.k = "point" -> Ok(VPoint(e.g, e.n))
       [] e.k = "void"  -> Ok(VVoid)
       [] e.k = "var"   -> IF e.x \in DOMAIN env THEN Ok(env[e.x]) ELSE Unknown
       [] e.k = "neg"   -> LET r == Eval(m, env, e.e, fuel) IN IF r.r = "ok" THEN Ok(VInt(0 - r.v.n)) ELSE r
